@@ -1,9 +1,16 @@
 import Ptk.Proto
 import Ptk.Model.C03
 import Ptk.Model.C03Utf8
+import Ptk.Model.C03Spec
+import Ptk.Model.C03Read
 open Ptk Ptk.Py Ptk.Proto Ptk.C03 Ptk.C03.Utf8
 
 def cfg : Cfg := genCfg
+
+def encKey (k : String) : String := encStr k.toList
+def decKey (tok : String) : Option String := (decStr tok).map String.ofList
+def encNats (l : List Nat) : String := "s:" ++ ",".intercalate (l.map toString)
+def decBytes (tok : String) : Option Bytes := (decStr tok).map (·.map Char.toNat)
 
 /-- driver state: a bare parser (ops feed/flush), a reader+parser (ops read/bflush), a bare
     decoder buffer (op dec) -/
@@ -11,12 +18,26 @@ structure DSt where
   p : St
   inp : InSt
   dec : Bytes
+  /-- a file descriptor with a `Vt100Input` (ops fdw/fdcw/fdcr/rk/fk) or a bare
+      `PosixStdinReader` (op rr) on it -/
+  fd : Fd
+  ip : Inp
+  rd : Reader
+  /-- the typeahead store (ops tas/tag/tac) -/
+  ta : TA
+  /-- a fresh `_IsPrefixOfLongerMatchCache` (op pfxc) -/
+  pc : PCache
 
-def DSt.init : DSt := { p := St.init, inp := InSt.init, dec := [] }
+def DSt.init : DSt :=
+  { p := St.init, inp := InSt.init, dec := [], fd := Fd.init, ip := Inp.init, rd := Reader.init,
+    ta := [], pc := [] }
 
-def encKey (k : String) : String := encStr k.toList
-def encNats (l : List Nat) : String := "s:" ++ ",".intercalate (l.map toString)
-def decBytes (tok : String) : Option Bytes := (decStr tok).map (·.map Char.toNat)
+def encPresses (out : List Press) : String :=
+  out.foldl (fun acc p => acc ++ " " ++ encKey p.key ++ " " ++ encStr p.data) (toString out.length)
+
+/-- one press per character, like `KeyPress(c, c)` -/
+def charPresses (t : Text) : List Press := t.map fun c => ⟨String.singleton c, [c]⟩
+
 
 /-- `<n> key data key data … | inPaste paste prefix` ; the callback buffer is emptied after
     every op, like `Vt100Input._buffer`. -/
@@ -53,6 +74,54 @@ def stepLine (s : DSt) (toks : List String) : DSt × String :=
     let st := flushKeys cfg s.inp
     let (p, r) := reply st.p
     ({ s with inp := { st with p := p } }, s!"{r} {encNats st.dec}")
+  | ["fdw", b] =>
+    match decBytes b with
+    | some b => ({ s with fd := s.fd.write b }, "ok")
+    | none => (s, "bad-op")
+  | ["fdcw"] => ({ s with fd := s.fd.closeWrite }, "ok")
+  | ["fdcr"] => ({ s with fd := s.fd.closeRead }, "ok")
+  | ["rk"] =>
+    let (st, fd) := s.ip.readKeys cfg Gen.C03.readCount s.fd
+    let (p, r) := reply st.p
+    ({ s with ip := { st with p := p }, fd := fd }, s!"{r} {encNats st.rd.dec} {encBool st.closed}")
+  | ["fk"] =>
+    let st := s.ip.flushKeys cfg
+    let (p, r) := reply st.p
+    ({ s with ip := { st with p := p } }, s!"{r} {encNats st.rd.dec} {encBool st.closed}")
+  | ["rr"] =>
+    let (t, rd, fd) := s.rd.read Gen.C03.readCount s.fd
+    ({ s with rd := rd, fd := fd }, s!"{encNats t} {encNats rd.dec} {encBool rd.closed}")
+  | ["tas", k, d] =>
+    match decKey k, decStr d with
+    | some k, some d => ({ s with ta := s.ta.store k (charPresses d) }, "ok")
+    | _, _ => (s, "bad-op")
+  | ["tag", k] =>
+    match decKey k with
+    | some k => let (r, ta) := s.ta.take k; ({ s with ta := ta }, encPresses r)
+    | none => (s, "bad-op")
+  | ["tac", k] =>
+    match decKey k with
+    | some k => ({ s with ta := s.ta.clear k }, "ok")
+    | none => (s, "bad-op")
+  | ["pfxc", t] =>
+    match decStr t with
+    | some t =>
+      let hit := (s.pc.find? (fun kv => kv.1 == t)).isSome
+      let (b, pc) := PCache.lookup cfg s.pc t
+      ({ s with pc := pc }, s!"{encBool b} {encBool hit} {pc.length}")
+    | none => (s, "bad-op")
+  | ["spec", t] =>
+    match decStr t with
+    | some t => (s, (reply (St.after St.init (spec cfg t))).2)
+    | none => (s, "bad-op")
+  | "specsegs" :: segs =>
+    match segs.mapM decStr with
+    | some segs => (s, (reply (specSegs cfg St.init segs)).2)
+    | none => (s, "bad-op")
+  | ["lm", t] =>
+    match decStr t with
+    | some t => (s, toString (lm cfg t))
+    | none => (s, "bad-op")
   | ["cpr", t] => (s, pred (isCpr cfg.isDigit) t)
   | ["mouse", t] => (s, pred (isMouse cfg.isDigit) t)
   | ["cprp", t] => (s, pred (isCprPrefix cfg.isDigit) t)
